@@ -29,7 +29,7 @@ def configure(devices, tick, output='rec', overrides=None, tick_as_text=False):
 
 
 def minute_of_day():
-    now = sched.VDatetime.now()
+    now = sched.VDatetime.peek()
     return now.hour * 60 + now.minute
 
 
